@@ -587,4 +587,24 @@ theorem checkSub_watch (c : Case) (hc : caseOk c = true) (i nth : Nat) (r : SubR
       simpa [Spec.checkWatchKey, ribV] using this
     · simp [hso]
 
+/-- THE MASTER THEOREM, consumer tasks included: for every case that only names shards that exist
+    — any number of shards, writer sessions, channel subscribers, BMP connections, MRT dumps and
+    watch streams, ANY operations, ANY schedule string, at either granularity — the reference
+    checker written from the property text accepts the observation of the model's run. -/
+theorem check_run_ok_full (c : Case) (hc : caseOk c = true) : Spec.check c (observe c (run c)) = .ok := by
+  have hfin := run_finished c hc
+  unfold Spec.check
+  simp only [observe, hfin, Bool.not_true, Bool.false_eq_true, if_false, bne_self_eq_false]
+  apply checkSubs_ok
+  intro so hso
+  simp only [List.mem_flatMap, List.mem_range, List.mem_map] at hso
+  obtain ⟨i, _, ⟨p, hp, rfl⟩⟩ := hso
+  obtain ⟨nth, r⟩ := p
+  have hr' : r ∈ ((run c).threads i).mysubs := mem_enumFrom' _ _ _ hp
+  match hk : r.kind with
+  | 0 => exact checkSub_chan c hc i nth r hr' hk
+  | 1 => exact checkSub_bmp c hc i nth r hr' hk
+  | 2 => exact checkSub_mrt c hc i nth r hr' hk
+  | k + 3 => exact checkSub_watch c hc i nth r hr' k hk
+
 end Rbgp.Monitor
